@@ -177,7 +177,14 @@ def converters(repo, rep):
     else:
         rep.fail("R-C12-1", fi.file, fi.node.lineno, fi.qualname, "missing values", "missing ERA5 densities must become zero energy")
     # NDBC
-    fi = repo.func("wavespectra.input.ndbc._construct_spectra")
+    fi = repo.try_func("wavespectra.input.ndbc._construct_spectra")
+    if fi is None:
+        # the helper was inlined into the converter: the spreading expression lives in from_ndbc itself, whose stored density is
+        # typed with the other converters above; only the normalisation of the bracket remains to be checked here
+        spreading_norm(repo, rep, repo.func("wavespectra.input.ndbc.from_ndbc"), "R-C12-1")
+        spreading_norm(repo, rep, repo.func("wavespectra.input.ndbc_ascii.construct_spectra"), "R-C12-1")
+        rep.floor("R-C12-1", "typed converter outputs", n, 9)
+        return
     rows = {"ef": Q({"m": 2, "s": 1}, Fr(1)), "swd1": Q({"deg": 1}), "swd2": Q({"deg": 1}), "swr1": Q({}), "swr2": Q({}), "dir": Q({"deg": 1})}
     tab = NativeTable(repo, {})
     ev = UEval(repo, fi, {p: rows[p] for p in fi.params if p in rows}, {}, tab)
